@@ -41,6 +41,41 @@ theorem many_eq (p : Nat → Bool) (toks : List Nat) :
         rw [ih (pos + 1) (by omega)]; omega
       · simp [hp]
 
+/-- with a budget of `n` characters `many` takes `min n (run length)` of them -/
+theorem many_capped (p : Nat → Bool) (toks : List Nat) :
+    ∀ n pos, many p toks n pos = pos + min n (runLen p (toks.drop pos)) := by
+  intro n
+  induction n with
+  | zero => intro pos; simp [many]
+  | succ n ih =>
+    intro pos
+    simp only [many]
+    cases hg : toks[pos]? with
+    | none =>
+      have : toks.length ≤ pos := by simpa using hg
+      simp [List.drop_eq_nil_of_le this, runLen]
+    | some c =>
+      have hlt : pos < toks.length := by
+        rcases List.getElem?_eq_some_iff.mp hg with ⟨h, _⟩; exact h
+      have hd : toks.drop pos = c :: toks.drop (pos + 1) := by
+        rw [List.drop_eq_getElem_cons hlt]
+        congr 1
+        rcases List.getElem?_eq_some_iff.mp hg with ⟨_, h2⟩; exact h2
+      simp only [hd, runLen]
+      by_cases hp : p c
+      · simp only [hp, if_true]
+        rw [ih (pos + 1)]; omega
+      · simp [hp]
+
+/-- **bounded whitespace counts characters**: the match ends after `min hi (run length)` characters and exists iff that is
+    at least `lo` -/
+theorem boundedRun_eq (p : Nat → Bool) (lo hi : Nat) (toks : List Nat) (pos : Nat) :
+    boundedRun p lo hi toks pos =
+      if lo ≤ min hi (runLen p (toks.drop pos)) then some (pos + min hi (runLen p (toks.drop pos))) else none := by
+  simp only [boundedRun, many_capped]
+  have : pos + min hi (runLen p (toks.drop pos)) - pos = min hi (runLen p (toks.drop pos)) := by omega
+  rw [this]
+
 theorem skip_eq (p : Nat → Bool) (toks : List Nat) (pos : Nat) :
     skip p toks pos = pos + runLen p (toks.drop pos) := by
   unfold skip; exact many_eq p toks _ pos (by omega)
